@@ -440,12 +440,18 @@ impl TransactionWorkspace {
     ///
     /// # Errors
     ///
-    /// Returns an error if the transaction is already committed.
+    /// Returns an error if the transaction is already committed or is being
+    /// committed (by its owner, or merged into another workspace's commit).
     pub fn abandon(&self) -> Result<()> {
         let mut state = self.state.write();
         if *state == TransactionState::Committed {
             return Err(ChainError::TransactionFailed(
                 "cannot rollback committed transaction".to_string(),
+            ));
+        }
+        if *state == TransactionState::Committing {
+            return Err(ChainError::TransactionFailed(
+                "cannot rollback transaction that is being committed".to_string(),
             ));
         }
         *state = TransactionState::RolledBack;
